@@ -178,7 +178,7 @@ PROPS = {
             'resumption (transfer.state = Received{..}, transfer.resume) may trim the buffer and is outside these contracts',
             'interleaving with other links of the session is the routing contract of unit SESSION (C11.route.transfer)']),
     'C18': dict(
-        units=['TXN', 'TXNCTRL'], kani=[], level='proof', title='Transactions: listener-side resource table, controller-side wire content',
+        units=['TXN', 'TXNCTRL', 'SENDSPLIT'], kani=[], level='proof', title='Transactions: listener-side resource table, controller-side wire content',
         assumptions=[ASYNC,
             'the wrapped plain session is a stand-in with a ghost `delivered` log; built as with features transaction+acceptor',
             'allocate_transaction_id: partial correctness only (the uuid retry loop has no termination argument)',
@@ -193,7 +193,7 @@ PROPS = {
             'slab::Slab is modelled as a partial map whose vacant key is unoccupied (trusted stand-in)',
             'concurrent attaches are serialised by the session engine (not verified)']),
     'C13': dict(
-        units=['SESSION', 'LINK', 'SESSENG', 'LINKDETACH'],
+        units=['SESSION', 'LINK', 'SESSENG', 'LINKDETACH', 'SENDSPLIT'],
         lemmas={'SESSENG': ['lemma_ext_trans']}, kani=[], level='proof', title='Session and link lifecycles',
         assumptions=[ASYNC, ENGINE,
             'answered-no-later-than / returns-only-after clauses of the property are liveness statements and are not decided',
